@@ -556,10 +556,10 @@ class Vmap(Node):
         n = None
         for a, ax in zip(args, axes):
             if ax is not None:
-                n = np.asarray(a).shape[0]
+                n = np.asarray(a).shape[ax]
         rets = []
         for i in range(n):
-            sl = tuple((np.asarray(a)[i] if ax is not None else a) for a, ax in zip(args, axes))
+            sl = tuple((np.take(np.asarray(a), i, axis=ax) if ax is not None else a) for a, ax in zip(args, axes))
             rets.append(self.sub.ref(R, sl, path + (i,)))
         return _stack(rets)
 
